@@ -84,6 +84,7 @@ static int    g_seed;
 int           mc_verbose;
 int           mc_replaying;
 static char   g_curop[256];
+static char   g_context[64];
 static void   scratch_sync(void);
 
 static double
@@ -204,7 +205,10 @@ asan_cb(const char *report)
     }
     g_asan_seen++;
     char sig[200], detail[1500];
-    snprintf(sig, sizeof sig, "asan:%s:%s", type, func);
+    if (g_context[0])
+        snprintf(sig, sizeof sig, "asan:%s:%s@%s", type, func, g_context);
+    else
+        snprintf(sig, sizeof sig, "asan:%s:%s", type, func);
     /* keep the head of the report as detail */
     size_t n = strlen(report);
     if (n > 1200)
@@ -498,6 +502,12 @@ mc_harness_error(const char *fmt, ...)
     fprintf(stderr, "HARNESS-ERROR %s: %s [cfg %s] [case %s] [trace %s]\n", g_prop, detail, g_cfgdesc, g_case, tr);
     if (S)
         __sync_fetch_and_add(&S->harness_errors, 1);
+}
+
+void
+mc_set_context(const char *ctx)
+{
+    snprintf(g_context, sizeof g_context, "%s", ctx ? ctx : "");
 }
 
 void
